@@ -99,6 +99,8 @@ structure ImplRet where
   res : String
   /-- the observed `closed` bit just before the send's first step -/
   late : Bool
+  /-- ids of the sends that had returned Ok (in the implementation) before this send's first step -/
+  seenOk : List Nat := []
   /-- line of the send's first step and line of its return -/
   startLine : Nat
   retLine : Nat
@@ -106,7 +108,7 @@ structure ImplRet where
 
 structure Case where
   closed : Bool := false          -- last observed closed bit
-  starts : List (Nat × Bool × Nat) := []   -- id ↦ (late, line of the first step)
+  starts : List (Nat × Bool × Nat × List Nat) := []   -- id ↦ (late, line of the first step, ok ids so far)
   rets : List ImplRet := []
   handled : List Nat := []
   exits : List String := []       -- exit reasons seen by rx ops
@@ -142,12 +144,6 @@ def parseRets : List String → List (String × Nat × String)
   | _ :: rest => parseRets rest
   | [] => []
 
-def indexOf? (l : List Nat) (x : Nat) : Option Nat :=
-  let rec go : List Nat → Nat → Option Nat
-    | [], _ => none
-    | y :: ys, n => if x == y then some n else go ys (n + 1)
-  go l 0
-
 def parseKind? : String → Option RKind
   | "send" => some .send | "drain" => some .drain | "bad" => some .bad | _ => none
 def parseRes? : String → Option Res
@@ -157,27 +153,19 @@ def parseRes? : String → Option Res
 /-- Oracle at the end of a case (all workers finished, the receiver ran until it blocked), on the
 implementation's observations only. The state clauses are `Admission.Obs.violations` — the function
 proved empty for the model in `Props/C07.lean` / `Props/C02.lean` (`oracle_holds_of_model`) —
-applied to the implementation's `Obs`; the remaining clauses need the executed schedule
-(`order`: conclusion of `C02.real_time_order_handled` at every split point) or concern return
-values the model does not have (`wrong-return`, `bad-accepted`). -/
+applied to the implementation's `Obs` (for the `order` clause each send carries the ids of the sends
+that had returned Ok before its first step, computed here from the executed schedule exactly as the
+model's ghost `seenOk`); the remaining clauses concern return values the model does not have
+(`wrong-return`, `bad-accepted`). -/
 def oracleEnd (c : Case) (word : Word) (handled : List Nat) (sup : List String) (alive : Bool) : List String :=
-  let sends := c.rets.filter (·.kind == "send")
-  let oks := sends.filter (·.res == "ok")
   let drained := (sup.filter (· == "Terminated:Drained")).length
   let obs : Obs :=
     { rets := c.rets.filterMap (fun r => do
         let k ← parseKind? r.kind; let res ← parseRes? r.res
-        pure ⟨k, r.id, res, r.late⟩),
+        pure ⟨k, r.id, res, r.late, r.seenOk⟩),
       handled := handled, word := word, drainedExits := drained, otherExit := c.otherExit, alive := alive }
   obs.violations ++
   (if c.rets.all (fun r => (parseKind? r.kind).isSome && (parseRes? r.res).isSome) then [] else ["wrong-return"]) ++
-  -- C02 (b): real-time order ⇒ handling order
-  (if oks.all (fun r1 => oks.all (fun r2 =>
-      !(r1.retLine < r2.startLine) ||
-        (match indexOf? handled r1.id, indexOf? handled r2.id with
-         | some a, some b => a < b
-         | none, some _ => false        -- the later one handled, the earlier one not
-         | _, _ => true))) then [] else ["order"]) ++
   -- C02 (d): a wrong-type send returns InvalidActorType
   (if (c.rets.filter (·.kind == "bad")).all (·.res == "invalidType") then [] else ["bad-accepted"]) ++
   (if c.drainClosed == word.closed then [] else ["closed-bit-differs"])
@@ -268,7 +256,9 @@ def step1 (st : St) (op impl : String) : St × StepOut :=
       let c := if point == "send.status" then
           match opt with
           | [w] => (match (parseKV w "id").bind (·.toNat?) with
-                    | some id => { c with starts := (id, c.closed, c.line) :: c.starts }
+                    | some id =>
+                      let oks := (c.rets.filter (fun r => r.kind == "send" && r.res == "ok")).map (·.id)
+                      { c with starts := (id, c.closed, c.line, oks) :: c.starts }
                     | none => c)
           | _ => c
         else c
@@ -276,11 +266,11 @@ def step1 (st : St) (op impl : String) : St × StepOut :=
         k != i && !(["op.start", "done"].contains (threadAt st.g k)))
       let c := if point == "drain.close" then { c with drainClosed := true, raced := c.raced || inflight } else c
       let c := (parseRets iw).foldl (fun c (k, id, r) =>
-        let (late, sl) := match c.starts.find? (·.1 == id) with
-          | some (_, l, s) => (l, s)
-          | none => (false, 0)
-        let (late, sl) := if k == "send" then (late, sl) else (false, c.line)
-        { c with rets := c.rets ++ [{ kind := k, id := id, res := r, late := late, startLine := sl, retLine := c.line }] }) c
+        let (late, sl, oks) := match c.starts.find? (·.1 == id) with
+          | some (_, l, s, o) => (l, s, o)
+          | none => (false, 0, [])
+        let (late, sl, oks) := if k == "send" then (late, sl, oks) else (false, c.line, [])
+        { c with rets := c.rets ++ [{ kind := k, id := id, res := r, late := late, seenOk := oks, startLine := sl, retLine := c.line }] }) c
       let c := { c with closed := implClosed }
       ({ st with g := g', c := c }, { model := model })
   | ["rx", what] =>
@@ -316,7 +306,8 @@ def step1 (st : St) (op impl : String) : St × StepOut :=
       | none => []
     let c : Case := implSelf.foldl (fun (c : Case) (x : Nat × String) =>
       let (id, r) := x
-      { c with rets := c.rets ++ [{ kind := "send", id := id, res := r, late := c.closed, startLine := c.line, retLine := c.line }],
+      let oks := (c.rets.filter (fun r => r.kind == "send" && r.res == "ok")).map (·.id)
+      { c with rets := c.rets ++ [{ kind := "send", id := id, res := r, late := c.closed, seenOk := oks, startLine := c.line, retLine := c.line }],
                raced := c.raced || c.drainClosed }) c
     ({ st with g := g1, c := c, exitReason := if exited then reason else st.exitReason, nextH := nextH }, { model := model })
   | "end" :: _ =>
